@@ -42,9 +42,15 @@ def history(rng):
         elif r < 0.70:
             lines.append('F.copy 1 0'); lines.append('F.set 1 ' + lit().text()); kinds.append('copy-of-caller-frame-refilled')
         elif r < 0.80 and nstored:
-            lines.append('D.mutpt 0 %d %d %s' % (rng.randrange(nstored), rng.randrange(max(1, len(names))), apihist.rf(rng))); kinds.append('edit-stored-frame-in-place')
+            if names and rng.random() < 0.4:      # the same through the by-name accessors (point_nonConst(name); an absent name is refused)
+                lines.append('D.mutptn 0 %d %s %s' % (rng.randrange(nstored), harness.hx(rng.choice(list(names) + [b'nosuch'])), apihist.rf(rng))); kinds.append('edit-stored-frame-in-place-by-name')
+            else:
+                lines.append('D.mutpt 0 %d %d %s' % (rng.randrange(nstored), rng.randrange(max(1, len(names))), apihist.rf(rng))); kinds.append('edit-stored-frame-in-place')
         elif r < 0.86 and nstored and chans:
-            lines.append('D.mutch 0 %d %d %d %s' % (rng.randrange(nstored), rng.randrange(nsub), rng.randrange(len(chans)), apihist.rf(rng))); kinds.append('edit-stored-channel-in-place')
+            if rng.random() < 0.4:
+                lines.append('D.mutchn 0 %d %d %s %s' % (rng.randrange(nstored), rng.randrange(nsub), harness.hx(rng.choice(list(chans) + [b'nosuch'])), apihist.rf(rng))); kinds.append('edit-stored-channel-in-place-by-name')
+            else:
+                lines.append('D.mutch 0 %d %d %d %s' % (rng.randrange(nstored), rng.randrange(nsub), rng.randrange(len(chans)), apihist.rf(rng))); kinds.append('edit-stored-channel-in-place')
         elif r < 0.90 and nstored and nstored <= 12:
             # a point column handed over as CALLER frames (one register per stored frame, or one register for all of them), which
             # the caller then goes on editing: the stored frames must keep what they were given
@@ -106,7 +112,7 @@ def run(rep, work, rng, tier):
                             if bad <= 3: rep.violation('oracle', 'adding one %s column changed frames by %s elements' % (arg, grew), script=[l for l in hist if not l.startswith(('snap', 'F.show'))], signature='column-added-more-than-once')
                 last = fk; pending = None
             elif cmd in ('F.mutpt', 'F.mutch', 'F.set', 'F.copy', 'F.addpt', 'F.addch', 'F.fromdata'): pending = ('caller', ln[:60])
-            elif cmd in ('D.mutpt', 'D.mutch') and out and out[0] == 'ok': pending = ('inplace', ln[:60])
+            elif cmd in ('D.mutpt', 'D.mutch', 'D.mutptn', 'D.mutchn') and out and out[0] == 'ok': pending = ('inplace', ln[:60])
             elif cmd in ('point', 'analog') and out and out[0] == 'ok' and last: pending = ('column', cmd)
             elif cmd in ('frameR', 'pointcolR', 'analogcolR', 'frame', 'param'): pending = None
     rep.coverage.update(dict(evaluations=sum(kinds.values()), distinct_nontrivial=len(set(l for _, ls in cases for l in ls if not l.startswith(('snap', 'F.show')))),
